@@ -5,7 +5,8 @@ for every Closed core script; one setup/one loop and balanced braces for every r
 Ties: Esc.literal vs _escape_string_literal (S_py) and vs what g++ reads back (S_c); WF.wf (tr p) vs `g++` on the real emission of p,
 including scripts that read unbound / out-of-scope names.
 Oracle: the compiler — every accepted script of the documented style must compile, link and run one pass against the mock core;
-every string literal must arrive on the wire byte for byte; exactly one setup() and one loop()."""
+every string literal (ASCII, BMP and beyond U+FFFF; Serial, f-string piece, LCD) must arrive on the wire byte for byte; exactly one
+setup() and one loop(); list values that are not named variables in every expression position."""
 from __future__ import annotations
 
 import importlib
@@ -103,6 +104,86 @@ def strings(ctx):
             ctx.fail("string:wrong-bytes", f"string literal arrives changed on the wire (site {site}): wanted {bad!r}; got {got[:len(want)]!r}", replay)
 
 
+# printable characters outside ASCII: Latin-1 / BMP symbols and letters, and characters beyond U+FFFF (emoji, musical and mathematical
+# symbols, CJK extension B) — in UTF-16-minded encoders the latter become surrogate pairs
+BMP = list("é°µ€ΩжÄñß→✓√≤½日本语한ไ")
+ASTRAL = [chr(c) for c in (0x1F600, 0x1F321, 0x1F680, 0x1F4A1, 0x1D11E, 0x1D518, 0x1D7D8, 0x1F004, 0x20000, 0x2A6D6, 0x10348, 0x1F1E9)]
+PINNED_UNICODE = ["😀", "🌡 25°C", "𝄞", 'a😀b"\\', "😀😀", "é😀→", "\\😀", "😀\\", '"🚀"', "%s🚀%d", "𠀀", "𝔘𝟘=½"]
+
+
+def unicode_strings(ctx):
+    """string literals with printable characters beyond ASCII, at EVERY site that writes a literal: Serial text (direct, through a variable,
+    concatenated), f-string pieces, LCD text.  Model literal vs parser function; the sketch must compile and the UTF-8 bytes must arrive.
+    Own PRNG stream (the older generators keep theirs)."""
+    import random
+    rng = random.Random(f"{ctx.seed}:C06:unicode-strings")
+    parser = importlib.import_module("Reduino.transpile.parser")
+    vals = list(PINNED_UNICODE)
+    for _ in range(ctx.n(110, 1500)):
+        pools = rng.choice([[ASTRAL], [ASTRAL, BMP], [ASTRAL, biggen.PRINTABLE], [BMP, biggen.PRINTABLE], [ASTRAL, BMP, biggen.PRINTABLE, ["\\", '"']]])
+        v = "".join(rng.choice(rng.choice(pools)) for _ in range(rng.randint(1, 8)))
+        if v.isprintable():
+            vals.append(v)
+    rests = [";", '"', '\\"x', " + \"y\";"]
+    reqs = [f"esc|{hexs(v.encode())}|{hexs(rng.choice(rests).encode())}" for v in vals]
+    model = ctx.lean.drive(reqs)
+    for v, rq, m in zip(vals, reqs, model):
+        real = '"' + parser._escape_string_literal(v) + '"'
+        lit = re.match(r"lit=x([0-9a-f]*) read=(\S+)", m)
+        ctx.count("string:" + ("beyond-U+FFFF" if any(ord(c) > 0xFFFF for c in v) else "non-ascii"))
+        ctx.case("esc:" + v, nontrivial=True)
+        if not lit or bytes.fromhex(lit.group(1)).decode() != real:
+            ctx.tie_diff("tie escape (Esc.literal vs parser._escape_string_literal)", {"value": v}, m, real)
+        rest = bytes.fromhex(rq.split("|")[2][1:]).decode()
+        if lit and lit.group(2) != f"{hexs(v.encode())}/{hexs(rest.encode())}":
+            ctx.fail("string:model-literal-misread", f"the literal for {v!r} is not read back as the value (model): {lit.group(2)}", {"value": v})
+    sep = 'mon.write("@@separator@@@")'
+    sites = {"write": lambda lit: f"mon.write({lit})", "assign": lambda lit: f"sv = {lit}\nmon.write(sv)", "concat": lambda lit: f"mon.write(str(7) + {lit})",
+             "fstr": lambda lit: f"mon.write(f{lit[:-1]}{{n}}{lit[1:]})", "lcd": lambda lit: f"lcd.line(0, {lit})"}
+    order = ["write", "fstr", "lcd", "assign", "concat"]
+    jobs, metas = [], []
+    chunk = 8
+    for i in range(0, len(vals), chunk):
+        site = order[(i // chunk) % len(order)]
+        part = vals[i:i + chunk]
+        if site == "fstr":      # an f-string piece is written without braces, quotes and backslashes (their spelling inside f"" is the tokenizer's subject)
+            part = [v for v in part if not any(c in v for c in '{}\\"')]
+        if site == "lcd":       # one row of the display: short texts only (what a longer text is cut to is C17's subject)
+            part = [v for v in part if len(v.encode()) <= 16]
+        if not part:
+            continue
+        head = "from Reduino.Communication import SerialMonitor\nfrom Reduino.Displays import LCD\nmon = SerialMonitor(9600)\n" + ("lcd = LCD(i2c_addr=0x27)\n" if site == "lcd" else "") + "n = 5\n"
+        src = head + "\n".join(sites[site](biggen.py_str(v)) + "\n" + sep for v in part) + "\n"
+        cpp, exc = cxx.transpile(src)
+        ctx.case(src, nontrivial=True)
+        if cpp is None:
+            ctx.count("string-script-rejected")
+            continue
+        jobs.append((cpp, 0, ""))
+        metas.append((site, part, src))
+    for (site, part, src), res in zip(metas, cxx.run_many(ctx, jobs)):
+        replay = {"script": src, "site": site}
+        ctx.count("string-site:" + site)
+        if res.compile_error or not res.ok:
+            ctx.fail("string:" + key_of(res.compile_error or res.stderr), f"sketch with non-ASCII string literals ({site}) does not compile: {(res.compile_error or res.stderr)[:300]}", replay)
+            continue
+        ctx.cov["traces_validated_against_impl"] += 1
+        got, cur = [], []
+        for l in res.trace:
+            w = l.split(" ")
+            payload = bytes.fromhex(w[-1][1:]) if len(w) > 1 and w[-1].startswith("x") else b""
+            if w[0] == "println" and payload == b"@@separator@@@":
+                got.append(cur)
+                cur = []
+            elif w[0] in ("println", "lcd.print"):
+                cur.append(payload)
+        for v, g in zip(part, got + [[]] * len(part)):
+            want = {"concat": b"7" + v.encode(), "fstr": v.encode() + b"5" + v.encode()}.get(site, v.encode())
+            if (want not in g) if site == "lcd" else (b"".join(g) != want):
+                ctx.fail("string:wrong-bytes", f"string literal {v!r} arrives changed on the wire (site {site}): wanted {want!r}; got {g!r}", replay)
+                break
+
+
 def scoping(ctx):
     """WF model vs compiler on core-fragment scripts, including unbound / out-of-scope reads"""
     rng = ctx.rng
@@ -163,6 +244,8 @@ WITNESSES = {
     "witness:literal-plus-literal": "s = \"a\" + \"b\"\nmon.write(s)\n",
     "witness:str-argument-inside-call-argument": "def count(msg):\n    return len(msg)\nmon.write(count(\"xy\"))\n",
     "witness:loop-variable-after-loop": "for i in range(3):\n    sleep(1)\nmon.write(i)\n",
+    "witness:float-list-append-remove-literal": "fs = [1.5, 0.0, 2.5]\nfs.append(0.5)\nfs.remove(0.0)\nmon.write(len(fs))\n",
+    "witness:str-list-append-remove-literal": "ws = [\"a\", \"\", \"b\"]\nws.append(\"c\")\nws.remove(\"\")\nmon.write(len(ws))\n",
 }
 
 
@@ -203,6 +286,9 @@ MUST_COMPILE = {
     "helper-calls-later-helper": "def a(n):\n    return b(n) + 1\ndef b(n):\n    return n * 2\nx = a(3)\nmon.write(x)\n",
     "helpers-mutually-recursive": "def even(n):\n    if n == 0:\n        return 1\n    return odd(n - 1)\ndef odd(n):\n    if n == 0:\n        return 0\n    return even(n - 1)\nmon.write(even(4))\n",
     "helper-variants-call-each-other": "h = 2.5\ndef mix(x, y, d):\n    if d > 0:\n        return mix(y, x, d - 1)\n    return x + y\nmon.write(mix(1, h, 3))\n",
+    "subscript-of-list-literal": "step = 2\nv = [0, 64, 128, 255][step]\nmon.write(v)\nmon.write([1, 2, 3][-1])\nmon.write([0.5, 1.5][1])\nw = [\"a\", \"b\"][step - 1]\nmon.write(w)\nwhile True:\n    mon.write([10, 20, 30][step])\n    step = [1, 2, 0][step]\n",
+    "subscript-of-helper-result": "def ramp(k):\n    return [k, k + 1, k * 2]\nstep = 1\nb = ramp(step)[1]\nmon.write(b)\nmon.write(ramp(3)[step])\nmon.write(len(ramp(step)))\nwhile True:\n    mon.write(ramp(step)[0] + 1)\n",
+    "subscript-of-comprehension-and-nested-row": "step = 1\ng = [[1, 2], [3, 4]]\nc = [i * 2 for i in range(4)][step]\nmon.write(c)\nmon.write(g[1][0])\nrow = g[step]\nmon.write(row[0])\n",
     "servo-only-in-loop": "from Reduino.Actuators import Servo\nwhile True:\n    s = Servo(9)\n    s.write(10)\n",
 }
 
@@ -253,15 +339,49 @@ def compile_all(ctx):
             ctx.count("big:compiled-but-pass-did-not-finish")       # run-time behaviour is C01/C09's subject, not this property's
 
 
+def list_values(ctx):
+    """list VALUES that are not named variables — a list literal, a helper's result, a comprehension, a row of a nested list — subscripted
+    (constant / variable / negative index), measured, passed to a helper, bound to a new name, spliced into an f-string; int, float, bool
+    and str elements; at top level, in branches, loops and the main loop: every accepted script must compile, link and run one pass.
+    Own PRNG stream (the older generators keep theirs)."""
+    import random
+    import listgen
+    rng = random.Random(f"{ctx.seed}:C06:list-values")
+    gen = listgen.ListGen(rng)
+    srcs, feats = [], []
+    for i in range(ctx.n(70, 1200)):
+        srcs.append(gen.program())
+        feats.append(set(gen.features))
+    outs = [cxx.transpile(s) for s in srcs]
+    acc = [(s, f, cpp) for s, f, (cpp, e) in zip(srcs, feats, outs) if cpp is not None]
+    ctx.count("list-values:accepted", len(acc))
+    ctx.count("list-values:rejected", len(srcs) - len(acc))
+    for (s, fs, cpp), res in zip(acc, cxx.run_many(ctx, [(cpp, 1, "") for _, _, cpp in acc])):
+        for f in fs:
+            ctx.count("feature:" + f)
+        ctx.case(s, nontrivial=True)
+        shape(ctx, s, cpp)
+        ctx.cov["traces_validated_against_impl"] += 1
+        if res.compile_error:
+            ctx.fail(key_of(res.compile_error), f"accepted script (list values) does not compile: {res.compile_error[:400]}", {"script": s})
+        elif not res.ok:
+            ctx.count("list-values:compiled-but-pass-did-not-finish")
+
+
 def run(ctx: Ctx) -> int:
     ctx.prove(["Reduino.Props.C06", "Reduino.GenOb.Escape"])
     common.fresh_import()
     strings(ctx)
     scoping(ctx)
+    unicode_strings(ctx)
     witnesses(ctx)
     must_compile(ctx)
     compile_all(ctx)
+    list_values(ctx)
     ctx.cov["rule"] = ("(1) random strings over printable ASCII, heavy on quote/backslash, plus non-ASCII samples: model literal vs parser function, and bytes printed by the compiled "
                        "firmware at three literal sites; (2) core-fragment scripts incl. unbound and out-of-scope reads: WF model vs g++ -fsyntax-only; (3) feature pool + large "
-                       "random scripts (devices in every combination and accepted call shape, helpers, lists, strings, control flow, nested first assignments): compile, link, run one pass")
+                       "random scripts (devices in every combination and accepted call shape, helpers, lists, strings, control flow, nested first assignments): compile, link, run one pass; "
+                       "(4) string literals with printable non-ASCII characters (BMP and beyond U+FFFF) at every literal site — Serial text direct / via a variable / concatenated, "
+                       "f-string pieces, LCD text: model literal vs parser function, compile, UTF-8 bytes on the wire; (5) list values that are not named variables (literal, helper "
+                       "result, comprehension, nested row; int/float/bool/str) subscripted, measured, passed, bound, in f-strings: compile, link, run one pass")
     return ctx.finish(TRUSTED, search=None)
